@@ -226,7 +226,7 @@ impl Case {
         let mut parts: Vec<Vec<Op>> = Vec::new();
         let mut cost = usize::MAX;
         for op in ops {
-            let c = 4 + if inline { sizes[op.i] + if matches!(op.k, OpK::Neg | OpK::DivNum) { 0 } else { sizes[op.j] } } else { 0 };
+            let c = 7 + if inline { sizes[op.i] + if matches!(op.k, OpK::Neg | OpK::DivNum) { 0 } else { sizes[op.j] } } else { 0 };
             if cost.saturating_add(c) > LOCALS_PER_FN || parts.last().map(|p| p.len() >= OPS_PER_FN).unwrap_or(true) {
                 parts.push(Vec::new());
                 cost = defs_cost;
@@ -239,8 +239,16 @@ impl Case {
             if !self.global && !inline {
                 lines.extend(defs.iter().map(|d| format!("    {}", d)));
             }
-            for op in part.iter() {
-                lines.push(format!("    print({})", self.op_text(op)));
+            for (k, op) in part.iter().enumerate() {
+                // `+ - *` on every other pair are written in their compound form: v := a; v += b; print(v)
+                if matches!(op.k, OpK::Add | OpK::Sub | OpK::Mul) && (op.i + op.j) % 2 == 1 {
+                    let v = format!("zc{}_{}", n, k);
+                    lines.push(format!("    {} := {}", v, self.operand(op.i)));
+                    lines.push(format!("    {} {}= {}", v, op.k.sym(), self.operand(op.j)));
+                    lines.push(format!("    print({})", v));
+                } else {
+                    lines.push(format!("    print({})", self.op_text(op)));
+                }
                 at.push(lines.len());
             }
             lines.push("end".into());
@@ -707,7 +715,7 @@ impl Check for C19 {
         "cases: a random (nested, depth <= 3) type - tuples of int/float/str/bool/tuples, lists, declared blobs without function \
          fields, declared payload and payload-less enums - and 2-3 literal values of it (equal copies, late single differences, \
          swapped components, -0.0/0.0, int-vs-float leaves where `<`/`>`/`/` admit them, empty/singleton tuples and lists, \
-         prefix and non-ASCII strings); one program prints every operator application the type checker admits (== != < <= > >= on \
+         prefix and non-ASCII strings); one program prints every operator application the type checker admits (`+ - *` on every other pair in their compound form `v := a; v += b; print(v)`) (== != < <= > >= on \
          every ordered pair incl. a value with itself, + - * /, tuple / number, unary -); oracle: each printed line equals an \
          independent structural model (structural equality, one lexicographic order with exact int/float comparison and bytewise \
          strings, element-wise wrapping-int / IEEE arithmetic, Lua 5.3 number formatting) AND the observed booleans satisfy \
